@@ -114,7 +114,8 @@ def check_state(scn, st, corrupt=False):
 
 def canaries():
     from ..explore import Chooser
-    st = build(Chooser((1, 2)))
+    from ..explore import PresetChooser
+    st = build(PresetChooser({'flag20': 1, 'flag50': 2}))
     return [('c16-baseline', check_state('flags', st)['ok']),
             ('c16-wrong-kind-detected', not check_state('flags', st, corrupt=True)['ok'])]
 
